@@ -189,8 +189,91 @@ def enumerate_grid(tier: str, i: int, n: int) -> Iterator[dict]:
                         yield {"sizes": sizes, "m": m}
 
 
+# --------------------------------------------------------------------------- (d) simulated worlds: typed views, segments, ownership partition
+def strategy_worlds():
+    from hypothesis import strategies as st
+
+    from . import c06, c07, c08
+
+    return st.one_of(c06.strategy(), c07.strategy().filter(lambda c: c["flavour"] == "hsdp"), c08.strategy().filter(lambda c: c["flavour"] == "hybrid_shard"))
+
+
+def oracle_worlds(case: dict) -> Outcome:
+    from .. import dist_common as dc
+
+    case = dict(case)
+    case["steps"] = case["steps"][:2]  # the layout is fixed at construction; two steps suffice to exercise the buffers
+    out, info = dc.run_case(case, "C14.d.world", collect_layout=True)
+    pb = info.get("pb")
+    if pb is None or out.failures:
+        return out
+    results = info["results"]
+    G = pb.group_size
+    itemsize = torch.empty((), dtype=pb.comm_dtype).element_size()
+    out.nontrivial = G >= 2
+    out.classes += [pb.flavour, f"group{G}", "comm_" + str(pb.comm_dtype).split(".")[-1]]
+    by_shard: dict = {}
+    for r, res in enumerate(results):
+        by_shard.setdefault(res["s"], []).append((r, res))
+    for s, lst in by_shard.items():
+        blocks = pb.unit_blocks(s)
+        assign = ref_assign([n * itemsize for _, n in blocks], G)
+        base = None
+        for r, res in lst:
+            lay = res["layout"]
+            jr = (r % G) if pb.flavour == "ddp" else ((r // pb.S) % G)
+            if len(lay["views"]) != len(blocks):
+                out.fail("C14.d.views", "number of block buffers differs from the number of blocks", f"rank {r}: {len(lay['views'])} vs {len(blocks)}")
+                return out
+            seg = lay["total"] // G if G else 0
+            if lay["total"] != seg * G or lay["local_off"] != jr * seg or lay["local_len"] != seg:
+                out.fail("C14.d.segments", "the rank's send segment is not its slice of the gather buffer", f"rank {r} group rank {jr}: total {lay['total']} local_off {lay['local_off']} local_len {lay['local_len']}")
+            iv = []
+            for k, (v, (i, n), (al, rk)) in enumerate(zip(lay["views"], blocks, assign)):
+                where = f"rank {r} block {k} (param {i})"
+                if v["shape"] != v["block_shape"]:
+                    out.fail("C14.d.view_shape", "a block buffer does not have the block's shape", f"{where}: {v['shape']} vs {v['block_shape']}")
+                if v["dtype"] != str(pb.comm_dtype):
+                    out.fail("C14.d.view_dtype", "a block buffer does not have the communication dtype", f"{where}: {v['dtype']}")
+                if v["nbytes"] != n * itemsize or v["nbytes"] > al:
+                    out.fail("C14.d.view_size", "a block buffer is smaller than the block in the communication dtype or exceeds its aligned slot", f"{where}: {v['nbytes']} bytes, block needs {n * itemsize}, slot {al}")
+                if not v["same_storage"] or not v["contiguous"]:
+                    out.fail("C14.d.view", "a block buffer is not a contiguous view of the gather buffer", where)
+                if not (rk * seg <= v["byte_off"] and v["byte_off"] + al <= (rk + 1) * seg):
+                    out.fail("C14.d.owner_segment", "a block buffer (with its aligned slot) lies outside its owner's segment", f"{where}: offset {v['byte_off']} slot {al} owner {rk} segment size {seg}")
+                iv.append((v["byte_off"], v["byte_off"] + al))
+                if lay["selector"][k] != (rk == jr):
+                    out.fail("C14.d.assignment", "a rank's block selector differs from the size-only assignment", f"{where}: selector {lay['selector'][k]} owner {rk} group rank {jr}")
+            iv.sort()
+            if any(x[1] > y[0] for x, y in zip(iv, iv[1:])):
+                out.fail("C14.d.disjoint", "two block buffers (aligned slots) overlap", f"rank {r}")
+            offs = [v["byte_off"] for v in lay["views"]]
+            if base is None:
+                base = offs
+            elif offs != base:
+                out.fail("C14.d.same_on_all_ranks", "ranks of one shard compute different buffer layouts", f"rank {r}")
+        # state ownership: within a communication group every block has state on exactly one rank
+        groups: dict = {}
+        for r, res in lst:
+            gid = (r // G) if pb.flavour == "ddp" else ((r // pb.S) // G)
+            groups.setdefault(gid, []).append(res)
+        nblocks_per_param: dict = {}
+        for (i, n) in blocks:
+            nblocks_per_param[i] = nblocks_per_param.get(i, 0) + 1
+        for gid, members in groups.items():
+            for i, nb in nblocks_per_param.items():
+                keys: list = []
+                for res in members:
+                    keys += res["state_blocks"].get(i, [])
+                if len(keys) != nb or len(set(keys)) != nb:
+                    out.fail("C14.d.state_partition", "optimizer state of a parameter's blocks is not partitioned over the ranks of the group (each block on exactly one rank)",
+                             f"shard {s} group {gid} param {i}: {sorted(keys)} for {nb} blocks")
+    return out
+
+
 STREAMS = {
     "assign": Stream("assign", oracle=oracle_assign, strategy=strategy, quick=20000, thorough=400000, shards_quick=8, shards_thorough=16),
     "assign_grid": Stream("assign_grid", oracle=oracle_assign, enumerate=enumerate_grid, exhaustive=True, shards_quick=8, shards_thorough=16),
     "buffers": Stream("buffers", oracle=oracle_buffers, strategy=strategy, quick=6000, thorough=100000, shards_quick=4, shards_thorough=16),
+    "worlds": Stream("worlds", oracle=oracle_worlds, strategy=strategy_worlds, quick=200, thorough=3000, shards_quick=8, shards_thorough=16),
 }
